@@ -569,7 +569,7 @@ class Function(object):
         list_of_functions_which_need_gradient_and_function_value = list()
 
         # Separate all leaf function in 3 categories based on their need
-        for function, weight in self.decomposition_dict.items():
+        for function, weight in prune_dict(self.decomposition_dict).items():
             # If function has already been evaluated on point, then one should reuse some evaluation.
             # Note the method "is_already_evaluated_on_point" returns a non-empty tuple if the function has already
             # been evaluated, and None otherwise.
